@@ -2,6 +2,8 @@ import RtenVerif.Lemmas.Ctc
 import RtenVerif.Lemmas.CtcBound
 import RtenVerif.Lemmas.CtcExact
 import RtenVerif.Lemmas.CtcNoPrune
+import RtenVerif.Lemmas.CtcHom
+import RtenVerif.Lemmas.CtcLen
 
 /-!
 # C39 — CTC decoding returns distinct, correctly scored hypotheses
@@ -546,5 +548,163 @@ example : noPrune natOps 10 3 (initBeam natOps) 0 uniform23 = true := by decide
 example : noPrune natOps 5 3 (initBeam natOps) 0 uniform23 = true := by decide
 example : noPrune natOps 4 3 (initBeam natOps) 0 uniform23 = false := by decide
 example : noPrune natOps 1 2 (initBeam natOps) 0 [[1, 2], [2, 1]] = false := by decide
+
+/-! ## The carrier the driver runs projects exactly onto the `natOps` model -/
+
+/-- **C39.H (general)** A map that preserves the operations and comparisons of the carrier
+commutes with the whole beam search (every beam width, label count, matrix, start beam). -/
+theorem c39_beam_hom {α β : Type} (o1 : Ops α) (o2 : Ops β) (φ : α → β) (hh : OpsHom o1 o2 φ)
+    (B L : Nat) (rows : List (List α)) (beam : List (BState α)) (pos : Nat) :
+    (beamLoop o1 B L beam pos rows).map (mapState φ) =
+      beamLoop o2 B L (beam.map (mapState φ)) pos (rows.map (·.map φ)) :=
+  beamLoop_hom hh B L rows beam pos
+
+/-- **C39.H** `V.val` is such a homomorphism from the driver's carrier `vOps` (exact value +
+expression hash, with its zero-absorption and `vOne` shortcuts) to `natOps`. -/
+theorem c39_vOps_hom : OpsHom vOps natOps V.val := vOps_hom
+
+/-- **C39.H (driver, n-best)** What `model_C39` computes for a `beam` request — the beam search
+over `vOps` on the weights lifted by `leaf` — has exactly the labels, positions and score
+values of the `natOps` model on the original weights, which T3 / F / S4 are about. -/
+theorem c39_driver_nbest_eq_nat (B N L : Nat) (rows : List (List Nat)) :
+    (decodeBeamNbest vOps B N L (rows.map (·.map leaf))).map (·.map (mapHyp V.val)) =
+      decodeBeamNbest natOps B N L rows := by
+  rw [decodeBeamNbest_hom vOps_hom, rows_leaf_val]
+
+/-- **C39.H (driver, best)** The same for a `best` request (`decode_beam`). -/
+theorem c39_driver_best_eq_nat (B L : Nat) (rows : List (List Nat)) :
+    (decodeBeam vOps B L (rows.map (·.map leaf))).map (mapHyp V.val) =
+      decodeBeam natOps B L rows := by
+  rw [decodeBeam_hom vOps_hom, rows_leaf_val]
+
+/-! ## Beam size and table bounds (the `[beam_size, n_labels]` tensors are never over-indexed) -/
+
+/-- **C39.B** `decode_beam_impl` returns a non-empty beam of at most `max beam_size 1` states
+(at most `beam_size` whenever there is a time step, since then `beam_size ≠ 0`), for every
+carrier. -/
+theorem c39_beam_length {α} (ops : Ops α) (B L : Nat) (rows : List (List α))
+    (beam : List (BState α)) (h : decodeBeamImpl ops B L rows = some beam) :
+    beam ≠ [] ∧ beam.length ≤ max B 1 ∧ (rows ≠ [] → beam.length ≤ B) := by
+  unfold decodeBeamImpl at h
+  split at h
+  · rename_i he
+    cases h
+    have : rows = [] := by simpa using he
+    refine ⟨by simp [initBeam], by simp [initBeam]; omega, fun hne => absurd this hne⟩
+  · split at h
+    · cases h
+    · rename_i hb
+      cases h
+      have := beamLoop_length ops B L rows (initBeam ops) 0
+        ⟨by simp [initBeam], by simp [initBeam]; omega⟩
+      refine ⟨this.1, this.2, fun _ => ?_⟩
+      have h2 := this.2
+      omega
+
+/-- **C39.B (indices)** In one decoding step from a non-empty beam of at most `beam_size ≥ 1`
+states with `n_labels ≥ 1`, every index the code uses on the `[beam_size, n_labels]` tables is
+in range: the row of each state, the row of each merge target, and the `(index, label)` of each
+selected extension (which also indexes `beam`).  The beam invariant needed here is
+`c39_beam_length`.  So the total function tables of the model never hide an out-of-range read. -/
+theorem c39_step_indices_in_bounds {α} (ops : Ops α) (B L : Nat) (beam : List (BState α))
+    (row : List α) (hL : 0 < L) (hne : beam ≠ []) (hlen : beam.length ≤ B) :
+    (∀ sb ∈ beam.zipIdx, sb.2 < B ∧ 0 < L) ∧
+    (∀ s ∈ beam, ∀ l ti, mergeTarget beam s.pre l = some ti → ti < B ∧ 0 < L) ∧
+    (∀ label ∈ List.range' 1 (L - 1), label < L) ∧
+    (∀ e ∈ selectTopk ops B (candidates ops L beam.length (extendAll ops L beam row)),
+      e.index < beam.length ∧ e.index < B ∧ e.label < L) := by
+  refine ⟨?_, ?_, ?_, ?_⟩
+  · intro sb hsb
+    have := (List.getElem?_eq_some_iff.mp (List.mem_zipIdx_iff_getElem?.mp hsb)).1
+    exact ⟨by omega, hL⟩
+  · intro s _ l ti h
+    have := mergeTarget_lt beam s.pre l ti h
+    exact ⟨by omega, hL⟩
+  · intro label hl
+    have := List.mem_range'_1.mp hl
+    omega
+  · intro e he
+    have hpos : 0 < beam.length := by
+      cases beam with
+      | nil => exact absurd rfl hne
+      | cons a l => simp
+    rcases selectTopk_mem ops B L beam.length _ e he with ⟨h0, h1⟩ | ⟨h0, h1⟩
+    · rw [h0, h1]; exact ⟨hpos, by omega, hL⟩
+    · exact ⟨h0, by omega, h1⟩
+
+/-! ## `decode_beam` (single best hypothesis) -/
+
+theorem decodeBeam_spec {α} (ops : Ops α) (B L : Nat) (rows : List (List α)) (h : Hyp α)
+    (hd : decodeBeam ops B L rows = some h) :
+    ∃ beam st, decodeBeamImpl ops B L rows = some beam ∧ beam.head? = some st ∧ st ∈ beam ∧
+      h = hypOf ops st := by
+  unfold decodeBeam at hd
+  split at hd
+  · rename_i s rest heq
+    cases hd
+    exact ⟨s :: rest, s, heq, rfl, List.mem_cons_self, rfl⟩
+  · cases hd
+
+/-- **C39 best (totality)** `decode_beam` panics exactly when `decode_beam_impl` does: the
+`remove(0)` never hits an empty vector, for every carrier. -/
+theorem c39_best_total {α} (ops : Ops α) (B L : Nat) (rows : List (List α)) :
+    (decodeBeam ops B L rows).isSome = (decodeBeamImpl ops B L rows).isSome := by
+  unfold decodeBeam
+  cases hb : decodeBeamImpl ops B L rows with
+  | none => rfl
+  | some beam =>
+    have := (c39_beam_length ops B L rows beam hb).1
+    cases beam with
+    | nil => exact absurd rfl this
+    | cons s rest => rfl
+
+/-- **C39 best = head of n-best** for every `n_best ≥ 1`. -/
+theorem c39_best_is_nbest_head {α} (ops : Ops α) (B N L : Nat) (hN : 1 ≤ N)
+    (rows : List (List α)) (h : Hyp α) (hd : decodeBeam ops B L rows = some h) :
+    ∃ hs, decodeBeamNbest ops B N L rows = some (h :: hs) := by
+  obtain ⟨beam, st, hb, hhead, _, rfl⟩ := decodeBeam_spec ops B L rows h hd
+  unfold decodeBeamNbest
+  rw [hb]
+  cases beam with
+  | nil => cases hhead
+  | cons s rest =>
+    simp only [List.head?_cons, Option.some.injEq] at hhead
+    subst hhead
+    cases N with
+    | zero => omega
+    | succ n => exact ⟨(rest.take n).map (hypOf ops), by simp⟩
+
+/-- **C39.T3 (best)** The score of `decode_beam`'s hypothesis never exceeds the exact total
+probability of its label sequence. -/
+theorem c39_best_score_le_exact (B L : Nat) (rows : List (List Nat))
+    (hw : ∀ r ∈ rows, r.length = L) (h : Hyp Nat) (hd : decodeBeam natOps B L rows = some h) :
+    h.score ≤ exactTotal L rows (labels h.steps) := by
+  obtain ⟨beam, st, hb, _, hst, rfl⟩ := decodeBeam_spec natOps B L rows h hd
+  exact c39_beam_score_le_exact B L rows hw beam hb st hst
+
+/-- **C39.F (best)** … and is non-zero when every row has a positive entry. -/
+theorem c39_best_finite (B L : Nat) (rows : List (List Nat))
+    (hrows : ∀ row ∈ rows, ∃ l, l < L ∧ 0 < row.getD l 0) (h : Hyp Nat)
+    (hd : decodeBeam natOps B L rows = some h) : natOps.isZero h.score = false := by
+  obtain ⟨beam, st, hb, _, hst, rfl⟩ := decodeBeam_spec natOps B L rows h hd
+  exact (c39_scores_finite B L rows hrows beam hb).2 st hst
+
+/-- **C39.S4 (best)** … and equals the exact total when nothing is pruned. -/
+theorem c39_best_exact_when_unpruned (B L : Nat) (rows : List (List Nat))
+    (hw : ∀ r ∈ rows, r.length = L) (h : Hyp Nat) (hd : decodeBeam natOps B L rows = some h)
+    (hnp : noPrune natOps B L (initBeam natOps) 0 rows = true) :
+    h.score = exactTotal L rows (labels h.steps) := by
+  obtain ⟨beam, st, hb, _, hst, rfl⟩ := decodeBeam_spec natOps B L rows h hd
+  exact (c39_beam_exact_when_unpruned B L rows hw beam hb hnp).1 st hst
+
+/-! ## Greedy decoding with NaN entries (`cmp_nan_greater`) -/
+
+/-- T1 (`c39_greedy_collapse`, `c39_greedy_total`) holds for every carrier, in particular for
+`nanOps`; here the arg-max semantics on NaN: a NaN entry beats every number, and among several
+NaNs the **last** one is chosen (`cmp_nan_greater(NaN, NaN) = Greater` replaces the best). -/
+example : argmaxRow nanOps [some 3, none, some 5, none, some 1] = some 3 := by decide
+example : argmaxRow nanOps [some 3, some 5, some 5] = some 1 := by decide
+example : (decodeGreedy nanOps 3 [[some 1, none, some 2], [some 1, some 1, some 1]]).map
+    (fun h => (h.steps, h.score)) = some ([⟨1, 0⟩], none) := by decide
 
 end RtenVerif.Ctc
